@@ -31,7 +31,8 @@ type src struct {
 	si, off  int
 	term     error
 	closes   int
-	afterCls int // reads after Close (observed, not judged)
+	afterCls int   // reads after Close (observed, not judged)
+	closeErr error // what Close reports (a body whose Close complains is still closed - and must not be closed again)
 }
 
 func (s *src) Read(p []byte) (int, error) {
@@ -69,7 +70,17 @@ func (s *src) Read(p []byte) (int, error) {
 
 type closableSrc struct{ *src }
 
-func (c closableSrc) Close() error { c.src.closes++; return nil }
+func (c closableSrc) Close() error { c.src.closes++; return c.src.closeErr }
+
+var errCloseBoom = errors.New("c16: close reports an error")
+
+// failingClose makes every second source (by case) report an error from Close.
+func failingClose(s *src, salt int) {
+	if salt%2 == 1 {
+		s.closeErr = errCloseBoom
+		rec.Count("sources_whose_close_reports_an_error", 1)
+	}
+}
 
 // spec describes how a source of length L is split.
 type spec struct {
@@ -197,6 +208,7 @@ func modeName(m int) string { return [...]string{"Read", "ReadAll", "io.Copy"}[m
 
 func checkLimit(idx int, N int, sp spec, mode, buf int) {
 	s, e, term := sp.build(byte(N))
+	failingClose(s, idx+buf+mode+int(sp.mask))
 	lr := streams.LimitReadCloser(closableSrc{s}, int64(N))
 	got, err, stuck := consume(lr, mode, buf, 4*(sp.L+len(s.steps))+16)
 	ctx := func() map[string]any {
@@ -279,6 +291,7 @@ func checkMulti(idx int, mc multiCase, mode, buf int) {
 			readers = append(readers, &nestingSrc{src: s, idx: idx})
 			rec.Count("multi.source_that_copies_another_stream_while_read", 1)
 		case mc.closable[i]:
+			failingClose(s, idx+i+buf+mode)
 			readers = append(readers, closableSrc{s})
 		default:
 			readers = append(readers, s)
@@ -404,8 +417,9 @@ var errPoison = errors.New("the stream read from an element the caller put into 
 
 type sink struct {
 	bytes.Buffer
-	failAt int // -1 never; else Write fails once this many bytes were accepted
-	closes int
+	failAt   int // -1 never; else Write fails once this many bytes were accepted
+	closes   int
+	closeErr error
 }
 
 func (k *sink) Write(p []byte) (int, error) {
@@ -422,17 +436,21 @@ func (k *sink) Write(p []byte) (int, error) {
 
 type closableSink struct{ *sink }
 
-func (c closableSink) Close() error { c.sink.closes++; return nil }
+func (c closableSink) Close() error { c.sink.closes++; return c.sink.closeErr }
 
 func checkTee(idx int, sp spec, srcClosable, sinkClosable bool, failAt int, mode, buf int) {
 	s, e, term := sp.build(77)
 	k := &sink{failAt: failAt}
 	var r io.Reader = s
 	if srcClosable {
+		failingClose(s, idx+buf+mode+failAt+int(sp.mask))
 		r = closableSrc{s}
 	}
 	var w io.Writer = k
 	if sinkClosable {
+		if (idx+buf+mode+failAt)%3 == 1 {
+			k.closeErr = errCloseBoom
+		}
 		w = closableSink{k}
 	}
 	tr := streams.NewTeeReadCloser(r, w)
@@ -538,7 +556,7 @@ func TestCheck(t *testing.T) {
 	rec = mon.Open("C16")
 	defer rec.Close()
 	rec.Note("rule", "LimitReadCloser: every limit N in 0..16 x source length 0..N+3 x every composition of the source into read chunks (all compositions for lengths up to the tier's bound, seeded compositions above; see exhaustive_lengths) x EOF-with-last-data/EOF-alone x zero-length reads (none/before first/between/before EOF) x injected source error at every chunk position (with and without data) x consumer = Read loop with every buffer size 1..N+2, io.ReadAll, io.Copy. MultiReaderCloser: 1-4 scripted sources (closable/plain, one possibly failing) x the same consumers (io.Copy takes WriteTo). TeeReadCloser: every composition x closable/plain source and writer x writer failing at every offset. A case is one (component, parameters, script, consumer) tuple; tuples are enumerated without repetition, so distinct = evaluated; non-trivial = the source has at least one byte or a terminal error other than a bare EOF. Larger seeded streams (up to 200 KiB) on top.")
-	rec.Note("require", []string{"limit.oversize_rejected", "limit.within_limit", "multi.ok.Read", "limit.transient.ok", "tee.transient.ok", "multi.transient.ok.Read", "multi.transient.ok.ReadAll", "multi.transient.ok.io.Copy", "multi.ok.io.Copy", "multi.ok.ReadAll", "multi.caller_slice_overwritten_after_construction", "multi.caller_slice_intact_checked", "multi.source_that_copies_another_stream_while_read", "multi.nested_stream_as_last_source", "tee.ok", "tee.writer_failure_checked", "limit.eof_with_n_plus_1th_byte"})
+	rec.Note("require", []string{"limit.oversize_rejected", "limit.within_limit", "multi.ok.Read", "sources_whose_close_reports_an_error", "limit.transient.ok", "tee.transient.ok", "multi.transient.ok.Read", "multi.transient.ok.ReadAll", "multi.transient.ok.io.Copy", "multi.ok.io.Copy", "multi.ok.ReadAll", "multi.caller_slice_overwritten_after_construction", "multi.caller_slice_intact_checked", "multi.source_that_copies_another_stream_while_read", "multi.nested_stream_as_last_source", "tee.ok", "tee.writer_failure_checked", "limit.eof_with_n_plus_1th_byte"})
 	rec.Note("exhaustive_lengths", fmt.Sprintf("all compositions for source lengths 0..%d at every N (LimitReadCloser), 0..%d (TeeReadCloser)", mon.Pick(9, 15), mon.Pick(7, 11)))
 	gs := plan()
 	rec.Planned(len(gs))
